@@ -147,7 +147,7 @@ def gen_selection(rng, present, absent_pool, allow_none=True, need_one=False):
     else:
         sel = rng.sample(present, rng.randint(1 if need_one and present else 0, len(present))) if present else []
     if rng.random() < 0.4:
-        sel += rng.sample(absent_pool, rng.randint(1, 2))
+        sel += [a for a in rng.sample(absent_pool, rng.randint(1, 2)) if a not in sel]
     rng.shuffle(sel)
     if not sel:
         sel = [absent_pool[0]] if not need_one or not present else [present[0]]
@@ -501,16 +501,16 @@ def model_vs_real_table(model, real, stats, dtype, c):
 
 def parse_xtab_reply(reply):
     kv = parse_kv(reply)
-    rows = [] if kv["rows"] == "-" else [[None if t == "nan" else untok_exact(t) for t in r.split(",")] if r != "-" else []
-                                         for r in kv["rows"].split("|")]
+    rows = [] if kv["rows"] == "" else [[None if t == "nan" else untok_exact(t) for t in r.split(",")] if r != "-" else []
+                                        for r in kv["rows"].split("|")]
     return dict(zone=nums(kv["zone"]), cats=nums(kv["cats"]), rows=rows)
 
 
 def parse_xtab3_reply(reply):
     kv = parse_kv(reply)
     zone, cats = nums(kv["zone"]), nums(kv["cats"])
-    cols = [] if kv["cols"] == "-" else [[None if t == "nan" else untok_exact(t) for t in col.split(",")] if col != "-" else []
-                                         for col in kv["cols"].split("|")]
+    cols = [] if kv["cols"] == "" else [[None if t == "nan" else untok_exact(t) for t in col.split(",")] if col != "-" else []
+                                        for col in kv["cols"].split("|")]
     rows = [[cols[j][k] for j in range(len(cats))] for k in range(len(zone))] if cols and all(len(col) == len(zone) for col in cols) else \
         ([[] for _ in zone] if not cols else None)
     return dict(zone=zone, cats=cats, rows=rows)
